@@ -81,6 +81,14 @@ PROPS = {
     "C05": dict(
         gens=[tlc("c05"), rand("replace_hist", 500, "quick"), rand("replace_hist", 30000, "thorough")],
         tv_props=["C05", "DRIFT"],
+        # the lazily sorted index as a state machine (push / observe / clone): the order an observer reads is the stable
+        # order of the calls whatever the history; three shortcuts (those of seeds C14-d, C05-c, C05-d) are refuted,
+        # the same shortcut done right is accepted
+        mc=[dict(module="MC_IndexM.tla", cfg="MC_IndexM"),
+            dict(module="MC_IndexM.tla", cfg="MC_IndexM_push_keeps_flag_if_ge_sorted_last"),
+            dict(module="MC_IndexM.tla", cfg="MC_IndexM_push_keeps_flag_if_ge_last_pushed", expect="FlagMeansCurrent"),
+            dict(module="MC_IndexM.tla", cfg="MC_IndexM_clone_without_index", expect="FlagMeansCurrent"),
+            dict(module="MC_IndexM.tla", cfg="MC_IndexM_sort_unstable", expect="FlagMeansCurrent")],
         must_fire=["C05.source_is_splice"],
         rule="histories of replace/insert calls interleaved with observers; non-trivial = at least two replacements",
         nontrivial=lambda p: sum(1 for s in p.get("steps", []) if s["op"] == "replace") >= 2,
@@ -169,6 +177,8 @@ PROPS = {
     "C14": dict(
         gens=[tlc("c14"), rand("identity", 500, "quick"), rand("identity", 30000, "thorough")],
         tv_props=["C14", "DRIFT"],
+        mc=[dict(module="MC_IndexM.tla", cfg="MC_IndexM"),
+            dict(module="MC_IndexM.tla", cfg="MC_IndexM_push_keeps_flag_if_ge_last_pushed", expect="FlagMeansCurrent")],
         must_fire=["C14.eq_symmetric", "C14.eq_stable", "C14.same_construction_equal", "C14.typed_agrees_with_dyn",
                    "C14.equal_implies_same_hash", "C14.equal_implies_same_answers", "C14.observer_repeatable"],
         rule="pairs built by the same constructor calls and pairs one edit apart (Gen.tla Edits), with observer calls on one operand "
